@@ -42,7 +42,15 @@ func newFilePager(file string) (*filePager, error) {
 // pages start counting at 1
 func (f *filePager) page(id int, pagesize int) ([]byte, error) {
 	buf := make([]byte, pagesize)
-	_, err := f.mm.ReadAt(buf[:], int64(id-1)*int64(pagesize))
+	off := int64(id-1) * int64(pagesize)
+	if off+int64(pagesize) > int64(f.mm.Len()) && f.mm.Len() > 0 {
+		// The file has grown since it was mapped; read through the file
+		// descriptor. (Don't re-map: closing any descriptor of the file
+		// would drop our locks.)
+		_, err := f.f.ReadAt(buf, off)
+		return buf, err
+	}
+	_, err := f.mm.ReadAt(buf[:], off)
 	return buf, err
 }
 
